@@ -137,6 +137,8 @@ def install(extra_modules=()):
             m = tab.get(id(v))
             if m is None:
                 m = _struct_model(v)  # a precompiled format object or one of its bound methods
+            if m is None:
+                m = _lru_model(v, tab)  # a memoised function: symbolic arguments cannot be hashed
             if m is None and type(v) in (dict, list):
                 # a module-level table of precompiled formats / boundary functions (e.g. {width: Struct(...).unpack})
                 items = list(v.items()) if type(v) is dict else list(enumerate(v))
@@ -176,6 +178,23 @@ def install(extra_modules=()):
     return _installed
 
 
+_LRU_TYPE = type(__import__("functools").lru_cache(lambda: None))
+_lru_models = {}
+
+
+def _lru_model(v, tab):
+    """-> the (shared) model for a functools.lru_cache/cache wrapper, else None"""
+    if type(v) is not _LRU_TYPE:
+        return None
+    m = _lru_models.get(id(v))
+    if m is None:
+        fn = v.__wrapped__
+        fn = tab.get(id(fn)) or _struct_model(fn) or fn
+        m = M.LruModel(v, fn)
+        _lru_models[id(v)] = m
+    return m
+
+
 def _struct_model(v):
     """-> model for a precompiled struct.Struct instance or for a bound pack/unpack method of one, else None"""
     if isinstance(v, _struct.Struct):
@@ -192,7 +211,7 @@ def _rebind_closure(fn, tab):
             v = cell.cell_contents
         except ValueError:
             continue
-        m = tab.get(id(v)) or _struct_model(v)
+        m = tab.get(id(v)) or _struct_model(v) or _lru_model(v, tab)
         if m is not None:
             cell.cell_contents = m
             rep.append(f"{fn.__qualname__}.<cell{i}>->{getattr(m, '__name__', type(m).__name__)}")
